@@ -421,4 +421,9 @@ def rule_i(ctx: Ctx) -> None:
                 'its loop and no caller drains the generator afterwards.')
 
 
-RULES = [rule_a, rule_b, rule_c, rule_d, rule_e, rule_f, rule_g, rule_h, rule_i]
+def rule_j(ctx: Ctx) -> None:
+    """Every streamed chunk is resolved through the schema path `<parent>/*`: the declaration under the parent comes first (C20.f body)."""
+    c20.rule_f(ctx, 'C06.j')
+
+
+RULES = [rule_a, rule_b, rule_c, rule_d, rule_e, rule_f, rule_g, rule_h, rule_i, rule_j]
